@@ -13,6 +13,10 @@
      - every created simplex contains the new vertex      (C03_every_new_simplex_has_pt)
      - the vertex list grows by exactly the accepted point (C03_vertices_appended_once)
      - simplices stay sorted duplicate-free tuples          (C03_simplices_sorted_nodup)
+     - for a point inserted inside the hull, a facet WITH the new vertex is in at
+       most as many simplices as the ridge under it has faces of the cavity
+       boundary; hence a cavity whose boundary is a closed pseudo-manifold keeps
+       the hull property for every facet (C03_closed_cavity_keeps_hull_property)
      - a facet that does not contain the vertex being inserted is in at most two
        simplices afterwards if it was before; so when a triangulation with the hull
        property gets a facet into three or more simplices, that facet contains the
@@ -107,6 +111,22 @@ Section C03.
     2 < cf g (simplices (fst (add_point d t p hint o))) -> In (nverts t) g.
   Proof. exact (@first_overlap_at_new_vertex P d). Qed.
 
+  (* a point inserted inside the hull (located or hinted simplex) whose cavity
+     -- the reported [del] -- has a closed pseudo-manifold boundary (every ridge
+     in at most two boundary faces: what a star-shaped cavity gives) keeps the
+     hull property for EVERY facet.  The premise about the ridges is the one
+     geometric fact left open; C03_facets_need_geometry violates exactly it. *)
+  Theorem C03_closed_cavity_keeps_hull_property : forall (vs : list P) ss (h : list (op P)) p hint o,
+    wf_init vs ss -> (forall s, In s ss -> sorted s) ->
+    legal d (init vs ss) (h ++ [AddPoint p hint o]) = true ->
+    let t := reach d vs ss h in forall del add,
+    match hint with Some s => s | None => o_locate o end <> [] ->
+    snd (add_point d t p hint o) = Accepted del add ->
+    broken_faces (all_faces (simplices t)) = false ->
+    (forall r, cf r (hole_faces del) <= 2) ->
+    broken_faces (all_faces (simplices (fst (add_point d t p hint o)))) = false.
+  Proof. exact (@closed_cavity_keeps_hull_property P d). Qed.
+
   Theorem C03_simplices_sorted_nodup : forall (vs : list P) ss (h : list (op P)) p hint o,
     wf_init vs ss -> (forall s, In s ss -> sorted s) ->
     legal d (init vs ss) (h ++ [AddPoint p hint o]) = true ->
@@ -160,6 +180,23 @@ Proof.
     repeat (destruct Hs as [<-|Hs]; [repeat constructor|]). destruct Hs.
 Qed.
 
+(* non-vacuity of C03_closed_cavity_keeps_hull_property: an interior insertion
+   into the pinched example's triangulation with a cavity of two adjacent fan
+   triangles; every ridge (vertex) lies in at most two boundary edges *)
+Example C03_closed_cavity_example :
+  let t := init [0;1;2;3;4;5] C03_pinched_ss in
+  let o := C03_ex_orc [] [0;1;2] [] [] [[0;1;2];[0;2;3]] in
+  legal 2 t [AddPoint 6 (Some [0;1;2]) o] = true /\
+  broken_faces (all_faces (simplices t)) = false /\
+  (exists del add, snd (add_point 2 t 6 (Some [0;1;2]) o) = Accepted del add /\
+     del = [[0;1;2];[0;2;3]] /\
+     forallb (fun r => cf r (hole_faces del) <=? 2) (all_faces (hole_faces del)) = true) /\
+  broken_faces (all_faces (simplices (fst (add_point 2 t 6 (Some [0;1;2]) o)))) = false.
+Proof.
+  split; [vm_compute; reflexivity|]. split; [vm_compute; reflexivity|]. split; [|vm_compute; reflexivity].
+  eexists. eexists. split; [vm_compute; reflexivity|]. split; vm_compute; reflexivity.
+Qed.
+
 Print Assumptions C03_index_consistent.
 Print Assumptions C03_report_exact.
 Print Assumptions C03_reject_unchanged.
@@ -168,3 +205,4 @@ Print Assumptions C03_vertices_appended_once.
 Print Assumptions C03_old_facets_stay_le2.
 Print Assumptions C03_first_overlap_at_new_vertex.
 Print Assumptions C03_simplices_sorted_nodup.
+Print Assumptions C03_closed_cavity_keeps_hull_property.
